@@ -806,7 +806,9 @@ def exec_mutation(world, actor, rec):
             again, _ = snapshot(actor.sut)
             world.stats["caller_arguments_poisoned_after_call"] += npois
             if digest_form(again) != digest_form(post):
-                world.find({"C05"}, "caller_argument_aliased", rec, actor.kind,
+                broken = integrity(again)
+                world.find({"C05"} | ({iprop} if broken else set()), "caller_argument_aliased", rec, actor.kind,
+                           (f"[and the incidence is no longer two-way: {broken[0][0]} {broken[0][1]}] " if broken else "") +
                            "changing the caller's own argument objects after the call returned changed the "
                            f"network: {digest_form(post)!r} -> {digest_form(again)!r}"[:700])
                 actor.snap = again
@@ -853,10 +855,12 @@ def exec_mutation(world, actor, rec):
         for clause, detail in counts_consistent(actor.sut, post):
             world.find({"C06", iprop}, clause, rec, actor.kind, detail)
 
-    if actor.kind == "SC" and (getattr(actor, "sc_dirty", False) or locals().get("was_dirty")) and op in (
+    if actor.kind == "SC" and (getattr(actor, "sc_dirty", False) or locals().get("was_dirty")
+                               or not actor.model.is_closed()) and not actor.model.frozen and op in (
             "convert_labels_to_integers", "cleanup", "close"):
-        # rebuilding a complex whose closure was left incomplete by an earlier *raising* call
-        # re-adds the missing faces: the documentation does not say which IDs they get
+        # rebuilding a complex whose closure was left incomplete by an earlier *raising* call (or
+        # by an inherited Hypergraph mutator, C18 world) re-adds the missing faces / drops the
+        # duplicates: the documentation does not say which IDs they get
         world.stats["sc_rebuild_adopted"] += 1
         actor.model = M.model_from_snapshot(actor.kind, post, frozen=actor.model.frozen)
         actor.snap = post
@@ -872,6 +876,8 @@ def exec_mutation(world, actor, rec):
         return ok
 
     if actor.model.frozen and op in actor.model.STRUCTURAL:
+        if actor.kind == "SC" and op == "close" and not actor.model.is_closed():
+            world.probes["close_on_frozen_complex_that_is_not_closed"] += 1
         ok = judge_frozen(world, actor, rec, pre, post, exc, mop, margs)
         actor.model = M.model_from_snapshot(actor.kind, post, frozen=True)
         actor.snap = post
@@ -928,6 +934,8 @@ def exec_mutation(world, actor, rec):
                         props.add("C04")
                     if clause in ("members", "edge_attrs", "edge_set"):
                         props.add("C04")
+                if op in ("cleanup", "convert_labels_to_integers", "largest_connected_hypergraph"):
+                    props.add("C19")  # in-place variants of the derived networks of C19
                 if op == "merge_duplicate_edges" and clause in ("missing_new_edge", "edge_set") and \
                         a.get("rename") == "new":
                     props.add("C04")  # the merged edge is given an *automatic* ID
@@ -962,9 +970,13 @@ def exec_mutation(world, actor, rec):
                 if len(set(cand)) == size:
                     probes.append(cand)
         probes.append([])
-        for cand in probes:
+        shapes = [list, tuple, set, frozenset, iter, (lambda c: (x for x in c)), list, tuple]
+        for pi, cand in enumerate(probes):
             try:
-                got = bool(actor.sut.has_simplex(cand))
+                # the argument in every container shape a caller may use, one-shot iterators
+                # included (the stream seam applies to queries as well)
+                arg = shapes[(k + pi) % len(shapes)](cand)
+                got = bool(actor.sut.has_simplex(arg))
             except Exception as ex:  # noqa
                 world.find({"C03"}, "has_simplex_raised", rec, actor.kind, f"{cand!r}: {type(ex).__name__}: {ex}")
                 ok = False
@@ -972,7 +984,8 @@ def exec_mutation(world, actor, rec):
             want = frozenset(cand) in present
             if got != want:
                 world.find({"C03"}, "has_simplex_wrong", rec, actor.kind,
-                           f"has_simplex({cand!r}) = {got}, but the node set is {'a' if want else 'not a'} simplex")
+                           f"has_simplex({cand!r} as {type(arg).__name__}) = {got}, but the node set is "
+                           f"{'a' if want else 'not a'} simplex")
                 ok = False
                 break
         world.stats["has_simplex_probes"] += len(probes)
